@@ -547,8 +547,10 @@ Fixpoint parse_core (fuel : nat) (c : call) : M expr :=
             next ;;
             do md <- parse_modifier f;
             do rhs <- parse_core f CMetric1;
-            if is_logic op && (is_lit lhs || is_lit rhs) then fail else
+            if is_logic op && is_lit lhs then fail else
             do rhs' <- parse_core f (CInner op rhs);
+            (* the right operand is checked once it is complete (since the fix of D36): in  v or 2 * w  it is  2 * w , not the scalar 2 *)
+            if is_logic op && is_lit rhs' then fail else
             parse_core f (CBinOp (EBin lhs op md rhs') min_prec)
         end
     | CInner op rhs =>
